@@ -206,6 +206,14 @@ def _route(route, sig, case):
         if len(lst) != n:
             raise ValueError('%d signatures listed, %d encoded' % (len(lst), n))
         return [x for i, x in enumerate(lst) if i % 2 == 0]
+    if route == 'pel-after':
+        # "wherever it occurs": the same PEL decoded after other reference-code types of the same creator and component
+        # went through the SRC parser dispatch first, from a freshly loaded implementation
+        impl.fresh(False)
+        use_config(case['cfg'])
+        for code in ('BC8AE504', 'BC00E510', '1100E510', 'B700E5AA'):
+            decode.parse(pelgen.encode_pel(pelgen.pel_from_spec({'creator': 'O', 'sections': [{'t': 'PS', 'ascii': code.ljust(32)}]})))
+        return _route('pel', sig, case)
     if route == 'pel':
         words = list(pelgen.SRC_DEFAULT_WORDS)
         words[4:7] = [int.from_bytes(sig[0:4], 'big'), int.from_bytes(sig[4:8], 'big'), int.from_bytes(sig[8:12], 'big')]
@@ -310,7 +318,7 @@ def _do(res, case, step=499):
     res.add(vs)
 
 
-ROUTES = ['parser-lower', 'parser-upper', 'src10', 'src20', 'ud0', 'ud1', 'ud2', 'ud3', 'pel']
+ROUTES = ['parser-lower', 'parser-upper', 'src10', 'src20', 'ud0', 'ud1', 'ud2', 'ud3', 'pel', 'pel-after']
 
 
 def run_chunk(chunk):
@@ -323,6 +331,8 @@ def run_chunk(chunk):
                 sig = sig_bytes(vec).hex()
                 for route in ROUTES:
                     if route in ('pel', 'ud0', 'ud3') and sum(1 for v in vec if v != vec[0]) > 1:
+                        continue
+                    if route == 'pel-after' and (len(set(vec)) > 1 or chunk['cfg'] not in ('absent', 'full', 'nobit')):
                         continue
                     _do(res, {'k': 'sig', 'cfg': chunk['cfg'], 'sig': sig, 'route': route}, step=1499)
         elif k == 'sig_all':
